@@ -8,3 +8,4 @@ import DvidModel.Props.C07
 import DvidModel.Props.C12
 import DvidModel.Props.C04
 import DvidModel.Props.C03
+import DvidModel.Props.C02
